@@ -78,6 +78,7 @@ def space(tier, seed):
             else:
                 items.append({"block": "lookup", "file": f, "year": y, "tier": tier})
         items.append({"block": "vector", "file": f, "tier": tier})
+        items.append({"block": "multiyear", "file": f, "tier": tier})
         items.append({"block": "sim", "file": f, "tier": tier})
     return items
 
@@ -217,6 +218,40 @@ def run_lookup(item, only=None):
             ms = ref_schedules(f, d)
             stats["out"].add((f, ms[0]["id"] if len(ms) == 1 else len(ms)))
         d += timedelta(days=1)
+    return viol, stats
+
+
+def run_multiyear(item, only=None):
+    """ONE tariff object answers for the same calendar day in all 14 calendar types in turn (a lookup must not
+    depend on what the object was asked before)"""
+    f = item["file"]
+    viol, stats = [], {"n": 0, "nt": set(), "out": set()}
+
+    def rep(sig, what, o=None, e=None, ctx=None):
+        if len(viol) < 25:
+            viol.append((sig, what, o, e, ctx))
+
+    tariff = TimeOfUseTariff(f)
+    years = calendar_years()
+    tods = [(0, 0, 0), (13, 0, 0), (20, 30, 0)]
+    d = datetime(2001, 1, 1)  # iterate month/day of a non-leap year, plus Feb 29 where it exists
+    mds = []
+    while d.year == 2001:
+        mds.append((d.month, d.day))
+        d += timedelta(days=1)
+    mds.append((2, 29))
+    for (m, dd) in mds:
+        for y in years:
+            try:
+                base = datetime(y, m, dd)
+            except ValueError:
+                continue
+            for h, mi, sec in tods:
+                compare_lookup(tariff, f, base.replace(hour=h, minute=mi, second=sec), lambda sig, what, o=None, e=None, ctx=None: rep(sig + ":one-object-many-years", what, o, e, ctx), stats)
+        classes = {ref_schedules(f, datetime(y, m, dd))[0]["id"] for y in years if not (m == 2 and dd == 29 and not calendar.isleap(y)) and len(ref_schedules(f, datetime(y, m, dd))) == 1}
+        stats["out"].add((f, len(classes)))
+        if len(classes) > 1:
+            stats["nt"].add((f, m, dd))
     return viol, stats
 
 
@@ -361,6 +396,22 @@ def run_sim(item, only=None):
                 got_cost2 = acnsim.energy_cost(sim, tariff)
                 got_dc = acnsim.demand_charge(sim)
             stats["n"] += 2
+            # an explicitly passed tariff wins over the simulation's own signal
+            other_f = FILES[(FILES.index(f) + 1) % len(FILES)]
+            other = TimeOfUseTariff(other_f)
+            n_ok = all(ref_lookup(other_f, st + timedelta(minutes=period * k))[2] == 1 for k in range(T))
+            if n_ok:
+                with warnings.catch_warnings():
+                    warnings.simplefilter("ignore")
+                    g_cost_o = acnsim.energy_cost(sim, other)
+                    g_dc_o = acnsim.demand_charge(sim, other)
+                w_cost_o = sum(ref_lookup(other_f, st + timedelta(minutes=period * k))[0] * power[k] * (period / 60.0) for k in range(T))
+                w_dc_o = ref_lookup(other_f, st)[1] * max(power)
+                stats["n"] += 2
+                if abs(g_cost_o - w_cost_o) > 1e-9 * max(1.0, abs(w_cost_o)):
+                    rep("analysis:energy_cost:explicit-tariff", "%s: energy_cost(sim, %s) = %r, that tariff's prices give %r" % (f, other_f, g_cost_o, w_cost_o), g_cost_o, w_cost_o, ctx)
+                if abs(g_dc_o - w_dc_o) > 1e-9 * max(1.0, abs(w_dc_o)):
+                    rep("analysis:demand_charge:explicit-tariff", "%s: demand_charge(sim, %s) = %r, that tariff's rate gives %r" % (f, other_f, g_dc_o, w_dc_o), g_dc_o, w_dc_o, ctx)
             if abs(got_cost - want_cost) > 1e-9 * max(1.0, abs(want_cost)) or got_cost != got_cost2:
                 rep("analysis:energy_cost", "%s: energy_cost = %r, sum(price x power x dt) = %r" % (f, got_cost, want_cost), got_cost, want_cost, ctx)
             if abs(got_dc - want_dc) > 1e-9 * max(1.0, abs(want_dc)):
@@ -373,7 +424,7 @@ def run_sim(item, only=None):
 
 
 def execute(item, only=None):
-    return {"lookup": run_lookup, "vector": run_vector, "sim": run_sim}[item["block"]](item, only)
+    return {"lookup": run_lookup, "vector": run_vector, "sim": run_sim, "multiyear": run_multiyear}[item["block"]](item, only)
 
 
 def run(item):
@@ -394,4 +445,7 @@ def run(item):
 def replay(scn):
     item = {k: v for k, v in scn.items() if k != "only"}
     viol, _ = execute(item, only=scn.get("only"))
+    if not viol:
+        # a lookup may depend on what the same tariff object was asked before: re-execute the whole item
+        viol, _ = execute(item, only=None)
     return [{"signature": v[0], "what": v[1], "observed": v[2], "expected": v[3]} for v in viol]
